@@ -558,7 +558,7 @@ def dominated_in_family(world, body, bb, edges=(), blocks=(), root=None, pred=No
     return False
 
 
-def path_counts(body, start, is_hit, stop_blocks=None):
+def path_counts(body, start, is_hit, stop_blocks=None, only_stop=False):
     """(min, max) number of blocks satisfying is_hit on any acyclic normal path from `start` to a Return
     (panicking ends ignored; back edges cut).  Returns None if no path reaches a Return."""
     memo = {}
@@ -573,8 +573,10 @@ def path_counts(body, start, is_hit, stop_blocks=None):
         h = 1 if is_hit(b) else 0
         t = body.term(b)
         res = None
-        if t["k"] == "return" or (stop_blocks and b in stop_blocks):
+        if stop_blocks and b in stop_blocks:
             res = (h, h)
+        elif t["k"] == "return":
+            res = None if only_stop else (h, h)
         else:
             lo, hi = None, None
             for s in body.succ(b):
